@@ -73,7 +73,8 @@ def family_values(S, wd, gutil):
         return {"A": (d("pasteA.ini"), [d("pasteA.ini")]), "B": (d("pasteB.ini"), [d("pasteB.ini")]),
                 "bad": (5, None)}
     if v == "validate_pos_int":
-        return {"A": (3, ["3"]), "B": (5, ["5"]), "bad": (-1, ["-1"])}
+        # (B is the falsy valid value: "0 given" is not "not given")
+        return {"A": (3, ["3"]), "B": (0, ["0"]), "bad": (-1, ["-1"])}
     if v == "validate_string":
         return {"A": ("valA", ["valA"]), "B": ("valB", ["valB"]), "bad": (5, None)}
     if v == "validate_bool":
@@ -207,6 +208,9 @@ class Concrete:
         if py is MISSING or py == MISSING:
             return None
         if py == "hook" and self.kind == "hook":
+            if label == "B":
+                # the hook is imported from a helper module of the deployment instead of being written into the file
+                return "from cfghelpers import hookB_%d as %s\n" % (self.arity, self.name)
             return hook_src(self.name, label, self.arity)
         return "%s = %r\n" % (self.name, py)
 
@@ -274,6 +278,12 @@ class Concrete:
 # ---------------------------------------------------------------------------------------------
 
 def prepare_dir(wd):
+    # helper module that configuration files import hooks from (hookB of every arity; the name tells the label)
+    with open(os.path.join(wd, "cfghelpers.py"), "w") as f:
+        for ar in range(0, 7):
+            f.write("def hookB_%d(%s):\n    pass\n\n\nhookB_%d.__name__ = 'hookB'\n\n\n" % (ar, ", ".join("a%d" % i for i in range(ar)), ar))
+    if wd not in sys.path:
+        sys.path.insert(0, wd)
     for n in ("dirA", "dirB"):
         os.makedirs(os.path.join(wd, n), exist_ok=True)
     for n in ("fileA.txt", "fileB.txt"):
